@@ -334,10 +334,12 @@ def check_reserved_resources(rep):
     top = list(ai.node.body)
     for r in rz:
         for t, p in conds(ai, r):
-            if not (p is True and isinstance(t, ast.Name)):
+            if p is not True or not isinstance(t, (ast.Name, ast.BinOp, ast.Call, ast.ListComp, ast.SetComp)):
                 continue
+            tnames = set(n.id for n in ast.walk(t) if isinstance(n, ast.Name)) - {'RESERVED_ARGS', 'self', 'set', 'frozenset', 'list', 'any', 'len'}
             encl = [i for i in stmts_of(ai.node) if isinstance(i, ast.If) and any(x is r for x in ast.walk(i))
-                    and any(isinstance(n, ast.Name) and n.id == t.id for n in ast.walk(i.test))]
+                    and (any(x is t for x in ast.walk(i.test)) or
+                         (isinstance(t, ast.Name) and any(isinstance(n, ast.Name) and n.id == t.id for n in ast.walk(i.test))))]
             if not encl:
                 continue
             # value of the tested collection where the test stands: run the statements before it
@@ -347,13 +349,25 @@ def check_reserved_resources(rep):
                     break
                 if s not in top and not any(s in getattr(q, 'body', []) + getattr(q, 'orelse', []) for q in top if isinstance(q, ast.If)):
                     continue
-                if not any(isinstance(n, ast.Name) and n.id == t.id for n in ast.walk(s)):
+                if not any(isinstance(n, ast.Name) and n.id in tnames for n in ast.walk(s)):
                     continue
                 try:
                     it2.exec_stmt(s)
                 except Unmodelled:
-                    it2.env[t.id] = Opaque(s)
-            v = it2.env.get(t.id)
+                    for n in ast.walk(s):
+                        if isinstance(n, ast.Name) and isinstance(n.ctx, ast.Store):
+                            it2.env[n.id] = Opaque(s)
+            e = t
+            if isinstance(e, ast.Call) and call_name(e) in ('len', 'bool') and len(e.args) == 1:
+                e = e.args[0]
+            if isinstance(e, ast.Call) and call_name(e) == 'any' and len(e.args) == 1 and isinstance(e.args[0], (ast.GeneratorExp, ast.ListComp)) \
+                    and len(e.args[0].generators) == 1 and isinstance(e.args[0].generators[0].target, ast.Name):
+                # any(<test on x> for x in A)  <=>  {x in A | test} is non-empty
+                g = e.args[0].generators[0]
+                e = ast.copy_location(ast.ListComp(elt=ast.Name(id=g.target.id, ctx=ast.Load()), generators=[ast.comprehension(
+                    target=g.target, iter=g.iter, ifs=list(g.ifs) + [e.args[0].elt], is_async=0)]), e)
+                ast.fix_missing_locations(e)
+            v = it2.try_eval(e)
             if v == uni2['RESERVED'] & uni2['RES']:
                 ok = True
                 guard_if = encl[:1]
